@@ -499,6 +499,25 @@ func (g *Gen) ioReqs(scope, stream int) []string {
 func genC13Large(g *Gen, w *bufio.Writer) {
 	u8 := &Ty{Kind: KUint, N: 1}
 	bl := &Ty{Kind: KList, N: 1 << 20, Elem: u8}
+	// one contiguous request served in MANY pieces (101 .. 1000 calls of the underlying reader,
+	// every one of them making progress): complete, and cut one byte short
+	for _, n := range []int{99, 100, 101, 130, 201, 260, 513, 701, 1000} {
+		seq := make([]*Val, n)
+		for i := range seq {
+			seq[i] = &Val{Kind: VNum, Num: new(big.Int).SetUint64(1 + g.U64()%255)}
+		}
+		for _, t := range []*Ty{bl, {Kind: KContainer, Fields: []*Ty{{Kind: KUint, N: 2}, bl}}} {
+			v := &Val{Kind: VSeq, Seq: seq}
+			if t.Kind == KContainer {
+				v = &Val{Kind: VSeq, Seq: []*Val{{Kind: VNum, Num: big.NewInt(7)}, v}}
+			}
+			bs := refSer(t, v)
+			for _, s := range []string{"1", "2", "3", "7", "c:1,2", "c:9,1"} {
+				fmt.Fprintf(w, "io.dec %s %s %d %s %s\n", s, ioModes[g.Intn(len(ioModes))], len(bs), t, hexs(bs))
+				fmt.Fprintf(w, "io.dec %s fail %d %s %s\n", s, len(bs)-1, t, hexs(bs))
+			}
+		}
+	}
 	types := []*Ty{bl, {Kind: KContainer, Fields: []*Ty{{Kind: KUint, N: 2}, bl}}, {Kind: KVector, N: 8200, Elem: u8}}
 	for _, t := range types {
 		for _, n := range []int{4096, 4097, 8192, 8200, 12288} {
@@ -569,6 +588,14 @@ func genC13(g *Gen, tier string, w *bufio.Writer) {
 		{&Ty{Kind: KList, N: 8, Elem: lu}, &Val{Kind: VSeq, Seq: []*Val{{Kind: VSeq, Seq: []*Val{{Kind: VNum, Num: bigOne()}, {Kind: VNum, Num: bigOne()}}}, emptyL, emptyL}}},
 		{&Ty{Kind: KVector, N: 3, Elem: lu}, &Val{Kind: VSeq, Seq: []*Val{{Kind: VSeq, Seq: []*Val{{Kind: VNum, Num: bigOne()}}}, emptyL, emptyL}}},
 		{&Ty{Kind: KList, N: 1 << 40, Elem: &Ty{Kind: KList, N: 1 << 40, Elem: lu}}, &Val{Kind: VSeq, Seq: []*Val{{Kind: VSeq, Seq: []*Val{emptyL, emptyL}}, emptyL}}},
+		// unions hand their own reader to the option: one-byte options (bitlists, uint8) at non-zero
+		// selectors, bare and nested, so that a stream ending right after the selector is seen
+		{&Ty{Kind: KUnion, Fields: []*Ty{u16, {Kind: KBitlist, N: 5}}}, &Val{Kind: VUnion, Sel: 1, Inner: &Val{Kind: VBits, Bits: []bool{true, false}}}},
+		{&Ty{Kind: KUnion, Fields: []*Ty{u16, {Kind: KBitlist, N: 5}}}, &Val{Kind: VUnion, Sel: 1, Inner: &Val{Kind: VBits, Bits: []bool{}}}},
+		{&Ty{Kind: KUnion, HasNone: true, Fields: []*Ty{{Kind: KBitlist, N: 7}, {Kind: KUint, N: 1}}}, &Val{Kind: VUnion, Sel: 1, Inner: &Val{Kind: VBits, Bits: []bool{false, true, true}}}},
+		{&Ty{Kind: KUnion, HasNone: true, Fields: []*Ty{{Kind: KBitlist, N: 7}, {Kind: KUint, N: 1}}}, &Val{Kind: VUnion, Sel: 2, Inner: &Val{Kind: VNum, Num: big.NewInt(2)}}},
+		{&Ty{Kind: KContainer, Fields: []*Ty{u16, {Kind: KUnion, Fields: []*Ty{u16, u16, {Kind: KBitlist, N: 3}}}}}, &Val{Kind: VSeq, Seq: []*Val{{Kind: VNum, Num: bigOne()}, {Kind: VUnion, Sel: 2, Inner: &Val{Kind: VBits, Bits: []bool{true}}}}}},
+		{&Ty{Kind: KList, N: 4, Elem: &Ty{Kind: KUnion, Fields: []*Ty{u16, {Kind: KBitlist, N: 3}}}}, &Val{Kind: VSeq, Seq: []*Val{{Kind: VUnion, Sel: 1, Inner: &Val{Kind: VBits, Bits: []bool{}}}, {Kind: VUnion, Sel: 1, Inner: &Val{Kind: VBits, Bits: []bool{true, true}}}}}},
 	}
 	for i := 0; i < nv+len(fixedCases); i++ {
 		var t *Ty
